@@ -108,7 +108,7 @@ class PF:
             return vals
         import torch
         first = f"{vs[0]}[:, :1]"
-        comps = [pt_py(t) if pt_vars(t) else f"torch.full_like({first}, {float(pt_eval(t, {}))!r})" for t in self.terms]
+        comps = [pt_py(t) if pt_vars(t) else f"torch.full_like({first}, {float(pt_eval(t, {}))!r}, dtype=torch.promote_types({first}.dtype, torch.float32))" for t in self.terms]
         if self.defaulted in vs and len(vs) >= 2:
             # Python requires defaulted parameters last; the first variable stays required (it sizes constants)
             vs = [x for x in vs if x != self.defaulted] + [self.defaulted]
